@@ -183,6 +183,11 @@ class MuxSocketTransportSink(ClientMessageSink):
     try:
       self._log.debug('Opening transport.')
       self._socket.open()
+      if not self.isActive:
+        # Close() was called while the connect was in flight; it could not close
+        # a socket that was not connected yet, so do that now.
+        self._socket.close()
+        raise Exception('Transport was shut down while opening.')
       self._greenlets.append(self._SpawnNamedGreenlet('Recv Loop', self._RecvLoop))
       self._greenlets.append(self._SpawnNamedGreenlet('Send Loop', self._SendLoop))
 
